@@ -414,6 +414,107 @@ def loadSpline {α : Type} (elem : JVal → Option α) (j : JVal) : Option Splin
   | some [i] => req (loadSplineInner elem) i
   | _ => none
 
+/-! ### curves -/
+
+/-- a map key read as `i64` by serde_json (`MapKey::deserialize_i64`): the raw key must be a JSON integer
+literal — optional `-`, digits, no leading zero, no fraction or exponent; `-0` is read as the float −0.0 —
+within the `i64` range -/
+def parseI64Key (s : String) : Option Int :=
+  let cs := s.toList
+  let neg := cs.head? == some '-'
+  let ds := if neg then cs.drop 1 else cs
+  if ds.isEmpty || !ds.all isDigit then none
+  else if decide (ds.length > 1) && ds.head? == some '0' then none
+  else
+    let v := digitsVal ds
+    if neg && v == 0 then none
+    else
+      let x := if neg then -v else v
+      if decide (-(2 : Int) ^ 63 ≤ x) && decide (x < (2 : Int) ^ 63) then some x else none
+
+/-- `IndexMap<i64, T>`: a JSON object (never an array); every key an `i64`, every value a `T`; a repeated
+key replaces the earlier value -/
+def asI64Map {α : Type} (elem : JVal → Option α) : JVal → Option (List (Int × α))
+  | .obj kvs => kvs.mapM (fun kv =>
+      match parseI64Key kv.1, elem kv.2 with
+      | some k, some v => some (k, v)
+      | _, _ => none)
+  | _ => none
+
+/-- a derived enum of unit variants: the variant name as a string, or `{"Name": null}` -/
+def unitEnumOf (names : List String) : JVal → Option String
+  | .str s => if names.contains s then some s else none
+  | .obj [(k, .null)] => if names.contains k then some k else none
+  | _ => none
+
+def conventionNames : List String :=
+  ["One", "OnePlus", "Act365F", "Act365FPlus", "Act360", "ThirtyE360", "Thirty360", "Thirty360ISDA",
+   "ActActISDA", "ActActICMA", "Bus252"]
+def modifierNames : List String := ["Act", "F", "ModF", "P", "ModP"]
+def interpolatorNames : List String :=
+  ["LogLinear", "Linear", "LinearZeroRate", "FlatForward", "FlatBackward", "Null"]
+
+/-- `CurveInterpolator`: a newtype variant around a field-less struct (`{}` with any keys, or `[]`) -/
+def loadInterpolator (j : JVal) : Option String :=
+  match enumOf j with
+  | some (tag, v) =>
+    if interpolatorNames.contains tag && (fieldsOf [] v).isSome then some tag else none
+  | none => none
+
+inductive NodesShape where
+  | f64 (n : Nat)
+  | dual (l : List DualShape)
+  | dual2 (l : List Dual2Shape)
+deriving DecidableEq, Repr
+
+/-- number of distinct keys, values of the LAST occurrence of each key (IndexMap insertion) -/
+def lastPerKey {α : Type} (l : List (Int × α)) : List α :=
+  let keys := (l.map (·.1)).eraseDups
+  keys.filterMap (fun k => ((l.filter (fun kv => kv.1 == k)).getLast?).map (·.2))
+
+/-- `NodesTimestamp`: `{"F64": map}`, `{"Dual": map}`, `{"Dual2": map}` -/
+def loadNodes (j : JVal) : Option NodesShape :=
+  match enumOf j with
+  | some ("F64", v) => (asI64Map asF64 v).map (fun l => .f64 (lastPerKey l).length)
+  | some ("Dual", v) => (asI64Map loadDual v).map (fun l => .dual (lastPerKey l))
+  | some ("Dual2", v) => (asI64Map loadDual2 v).map (fun l => .dual2 (lastPerKey l))
+  | _ => none
+
+/-- `CalType`: `{"Cal": …}`, `{"UnionCal": …}`, `{"NamedCal": …}` -/
+def loadCalType (table : String → Option Cal) (j : JVal) : Option String :=
+  match enumOf j with
+  | some ("Cal", v) => (loadCal v).map (fun _ => "Cal")
+  | some ("UnionCal", v) => (loadUnionCal v).map (fun _ => "UnionCal")
+  | some ("NamedCal", v) => (loadNamedCal table v).map (fun _ => "NamedCal")
+  | _ => none
+
+structure CurveShape where
+  nodes : NodesShape
+  interpolator : String
+  id : String
+  convention : String
+  modifier : String
+  hasIndexBase : Bool
+  calendar : String
+deriving DecidableEq, Repr
+
+/-- `CurveDF { nodes, interpolator, id, convention, modifier, index_base, calendar }` (plain derive; no
+validation: an empty node set loads) -/
+def loadCurveDF (table : String → Option Cal) (j : JVal) : Option CurveShape :=
+  match fieldsOf ["nodes", "interpolator", "id", "convention", "modifier", "index_base", "calendar"] j with
+  | some [n, i, d, c, m, b, k] =>
+    match req loadNodes n, req loadInterpolator i, req asStr d, req (unitEnumOf conventionNames) c,
+        req (unitEnumOf modifierNames) m, opt asF64 b, req (loadCalType table) k with
+    | some n, some i, some d, some c, some m, some b, some k => some ⟨n, i, d, c, m, b.isSome, k⟩
+    | _, _, _, _, _, _, _ => none
+  | _ => none
+
+/-- `Curve { inner }` -/
+def loadCurve (table : String → Option Cal) (j : JVal) : Option CurveShape :=
+  match fieldsOf ["inner"] j with
+  | some [i] => req (loadCurveDF table) i
+  | _ => none
+
 /-! ### the tagged entry point -/
 
 inductive Loaded where
@@ -424,8 +525,7 @@ inductive Loaded where
   | namedCal (name : String)
   | fxRates (s : FXShape)
   | spline (tag : String) (s : SplineShape)
-  /-- `Curve` documents are not modelled -/
-  | unmodelled
+  | curve (s : CurveShape)
 deriving DecidableEq, Repr
 
 def ofOpt {α β : Type} (f : α → β) : Option α → Outcome β
@@ -446,7 +546,7 @@ def loadTagged (table : String → Option Cal) (j : JVal) : Outcome Loaded :=
     else if tag = "PPSplineF64" then ofOpt (.spline tag) (loadSpline asF64 v)
     else if tag = "PPSplineDual" then ofOpt (.spline tag) (loadSpline loadDual v)
     else if tag = "PPSplineDual2" then ofOpt (.spline tag) (loadSpline loadDual2 v)
-    else if tag = "Curve" then .ok .unmodelled
+    else if tag = "Curve" then ofOpt .curve (loadCurve table v)
     else .err
 
 end Rateslib.Load
